@@ -474,7 +474,12 @@ class Arbiter:
 
         # create new pidfile
         if self.cfg.pidfile is not None:
-            self.pidfile = Pidfile(self.cfg.pidfile)
+            pidname = self.cfg.pidfile
+            if self.master_pid != 0:
+                # still the child of a live master: keep the ".2" name
+                # until maybe_promote_master() renames it
+                pidname += ".2"
+            self.pidfile = Pidfile(pidname)
             self.pidfile.create(self.pid)
 
         # set new proc_name
